@@ -384,19 +384,19 @@ theorem addWaitLock_rc {k : Key} {ex : Nat → Int} (hex : ∀ y, 0 ≤ ex y) (r
     · exact h1 _ h hh hnew
   · exact h1 _ h hh hnew
 
-/-- `AddLock`: the record (already counted by `addLockRec`: `refCount + 1`) becomes `currentLock` or a queue entry -/
-theorem addLock_rc {k : Key} {ex : Nat → Int} (hex : ∀ y, 0 ≤ ex y) (r1 : Rec)
-    (h : RCx (k.setRec r1) (fun y => ex y + delta r1.rid y)) : RCx (k.addLock r1) ex := by
+/-- `AddLock`: the record (already counted by the edit `f`: `refCount + 1`) becomes `currentLock` or a queue entry -/
+theorem addLock_rc {k : Key} {ex : Nat → Int} (hex : ∀ y, 0 ≤ ex y) (rid : Nat) (f : Rec → Rec)
+    (h : RCx (k.modRec rid f) (fun y => ex y + delta rid y)) : RCx (k.addLock rid f) ex := by
   unfold Key.addLock
   split
   · rename_i hc
     refine h.transfer rfl rfl (fun x => ?_)
-    have hc' : (k.setRec r1).current = none := hc
+    have hc' : (k.modRec rid f).current = none := hc
     simp only [Key.qRefs, hc', delta]
-    by_cases e : x = r1.rid
+    by_cases e : x = rid
     · subst e; simp; omega
-    · have : ¬ (r1.rid = x) := fun e' => e e'.symm
+    · have : ¬ (rid = x) := fun e' => e e'.symm
       simp [e, this]
-  · exact locksPush_rc hex r1.rid h
+  · exact locksPush_rc hex rid h
 
 end Slock.Engine2
